@@ -3,20 +3,35 @@ From Coq Require Import List Arith Bool Lia.
 From PV Require Import Model.Checked Model.ReviewedSites Proofs.CheckedProofs.
 Import ListNotations.
 
-Lemma rel_lookup_total {A} (found : ident A -> bool) : forall k rel,
-  k <= length (path rel) -> rel_lookup found k rel <> Panic.
+Lemma slice_to_ret {A} (l : list A) n : n <= length l -> slice_to l n = Ret (firstn n l).
 Proof.
-  induction k as [|k IH]; intros rel H; cbn [rel_lookup]; [discriminate|].
-  destruct (found rel); [discriminate|].
-  unfold pop_front. destruct rel as [[|p ps] nm]; cbn [path length] in *; [lia|].
-  cbn [snd unwrap bind]. apply IH. cbn [path]. lia.
+  intro H. unfold slice_to, slice. cbn [Nat.leb andb]. apply Nat.leb_le in H. rewrite H.
+  rewrite Nat.sub_0_r. reflexivity.
+Qed.
+
+Lemma rel_lookup_total {A} (found : ident A -> bool) mpath i : forall n,
+  n <= length mpath -> rel_lookup found mpath n i <> Panic.
+Proof.
+  induction n as [|n IH]; intro H; cbn [rel_lookup]; [discriminate|].
+  rewrite slice_to_ret by exact H. cbn [bind].
+  destruct (found (prepend i (firstn (S n) mpath))); [discriminate|]. apply IH. lia.
 Qed.
 
 Theorem resolve_relative_total_lemma {A} (found : ident A -> bool) module_path i :
   resolve_relative found module_path i <> Panic.
+Proof. unfold resolve_relative. apply rel_lookup_total. lia. Qed.
+
+Lemma core_walk_total {A} (ok : ident A -> bool) mpath i : forall n res,
+  n <= length mpath -> core_walk ok mpath n i res <> Panic.
 Proof.
-  unfold resolve_relative. apply rel_lookup_total. unfold prepend. cbn [path]. rewrite app_length. lia.
+  induction n as [|n IH]; intros res H; cbn [core_walk]; [discriminate|].
+  destruct (snd res); [discriminate|].
+  rewrite slice_to_ret by lia. cbn [bind]. apply IH. lia.
 Qed.
+
+Theorem resolve_core_relative_total_lemma {A} (ok : ident A -> bool) module_path i :
+  resolve_core_relative ok module_path i <> Panic.
+Proof. unfold resolve_core_relative. apply core_walk_total. lia. Qed.
 
 Theorem two_args_total_lemma {A} (args : list A) : two_args args <> Panic.
 Proof.
